@@ -354,6 +354,9 @@ def make_module(specs, module_name):
                 its.append(classes[ref])
             elif how == 'name':
                 its.append(ref)
+            elif how == 'param_in_list':      # an InputTaskParameter written INSIDE Meta.input_tasks
+                target = classes[ref] if inp.get('by_class', True) and ref in classes else ref
+                its.append(InputTaskParameter(target, **({'default': inp['default']} if 'default' in inp else {})))
             elif how == 'param':
                 target = classes[ref] if inp.get('by_class', True) and ref in classes else ref
                 kw = {'default': inp['default']} if 'default' in inp else {}
